@@ -130,16 +130,20 @@ PROPS["C03"] = {
     "units": {"quick": ["parser_core", "parser_protocol"], "thorough": ["parser_core", "decoder", "table_core", "parser_protocol"]},
     "only_items": {"parser_protocol": [r"Parser::(parse|new)$", r"Action::consume"]},
     "level": "proof",
-    "technique": "Verus contracts on the extracted parse_header/parse_inst/parse_operands/parse_spec_constant_op and the generated operand parsers: framing, error kinds, 1-based instruction number, offset inside the declared extent, exact word accounting",
-    "design_ref": "DESIGN.md §4 C03",
+    "technique": "Verus contracts on the extracted parse_header/parse_inst/parse_operands/parse_spec_constant_op and the generated operand parsers: framing, error kinds, 1-based instruction number, offset inside the declared extent, exact word accounting, and conformance of every delivered operand vector to the grammar row (ghost match trace maintained in the real loops)",
+    "design_ref": "DESIGN.md §4 C03, §9.7",
     "explanation": "parse_header, parse_inst, parse_operands, parse_spec_constant_op, parse_literal and all seven generated operand-parsing "
                    "functions are extracted verbatim. Proved for all inputs: header three-way outcome; Complete iff fewer than four bytes remain; "
                    "WordCountZero/OpcodeUnknown with the instruction's offset and 1-based number; success consumes exactly the declared word "
                    "count (no word left over) and yields the looked-up opcode; every positioned error carries this instruction's number and an "
-                   "offset inside its declared extent. NOT proved in this revision: that the accepted operand sequences are exactly those of the "
-                   "grammar row (refinement of the quantifier loop against a declarative matcher) — see DESIGN.md.",
+                   "offset inside its declared extent; every delivered instruction `conforms` to its row: result type / result id present exactly when the row has them, "
+                   "the operand vector is a concatenation of chunks in grammar order, one per concrete operand, each of the variant(s) its kind dictates, "
+                   "required operands exactly once, optional at most once, only a variadic one repeated, the match stopping only at the end of the row or at an optional / variadic "
+                   "operand with every word used, and the same for the opcode embedded in OpSpecConstantOp. NOT proved: the converse (every grammar-conforming word sequence is accepted) "
+                   "beyond the greedy/stop clauses - it needs value-level validity of enumerants; crafted must-accept / must-reject modules are replayed by the witness search only.",
     "assumptions": [],
 }
+
 PROPS["C10"] = {
     "title": "Context-dependent literal widths follow the types declared earlier",
     "units": {"quick": ["parser_core", "parser_protocol", "tracker"], "thorough": ["parser_core", "parser_protocol", "tracker"]},
@@ -179,23 +183,26 @@ PROPS["C02"] = {
     "explanation": "Encoding side proved for all values: every operand variant appends exactly the words the specification prescribes for its payload type "
                    "(enumerant number, mask bits, word, low-then-high for 64 bits, NUL-terminated padded string words), an instruction is its first word "
                    "(word count << 16 | opcode, word count = words emitted) followed by result type, result id and the operand encodings in order. "
-                   "The parser side is proved to consume exactly the declared extent (C03). NOT proved in this revision: the value-level inverse lemma "
+                   "The parser side is proved to consume exactly the declared extent and to deliver operand vectors that conform to the row, variant by variant (C03 `conforms`), "
+                   "with the tracker fed by every delivered instruction (parser_protocol, tracker). NOT proved in this revision: the value-level inverse lemma "
                    "parse(assemble(i)) == i (needs value postconditions on the generated operand parsers); assemble_str is a BOUNDED Kani check.",
     "assumptions": [],
 }
 
 PROPS["C17"] = {
     "title": "Operand reflection agrees with the parser and the grammar",
-    "units": {"quick": ["operand_reflect", "reflect_sweep"], "thorough": ["operand_reflect", "reflect_sweep", "parser_core"]},
+    "units": {"quick": ["operand_reflect", "operand_caps", "reflect_sweep"], "thorough": ["operand_reflect", "operand_caps", "reflect_sweep", "parser_core"]},
     "engines": ["verus", "replay-exhaustive"],
     "level": "proof",
-    "technique": "Verus contracts on id_ref_any, the 60 unwrap_* and the From conversions; parser-side parameter sequences proved against the lifted reflection tables (3 of 6 functions, unit parser_core); exhaustive finite-domain sweep of reflection vs parser on the real crate",
+    "technique": "Verus contracts on id_ref_any, the 60 unwrap_* and the From conversions; every arm of required_capabilities / required_extensions against the O4 snapshot; parser-side parameter sequences proved against the lifted reflection tables (3 of 6 functions, unit parser_core); exhaustive finite-domain sweep of reflection vs parser on the real crate",
     "design_ref": "DESIGN.md §4 C17",
     "explanation": "Proved (Verus): an operand reports an id iff it is IdRef/IdScope/IdMemorySemantics; unwrap_k returns the payload of variant k and is only "
                    "defined on it; From<payload> builds that variant (round trip by composition). Proved in parser_core: parse_execution_mode_arguments, "
                    "parse_memory_access_arguments, parse_tensor_addressing_operands_arguments consume exactly the parameters additional_operands reports (lifted). "
                    "Exhaustive sweep on the real code (not a proof, counted separately): agreement for every enumerant and every bit combination. "
-                   "NOT decided: equality with the Khronos grammar's parameter/capability/extension lists (JSON absent).",
+                   "operand_caps: each of the 51 + 43 arms of required_capabilities / required_extensions returns, for every value, the list of the O4 snapshot for the enumerant, "
+                   "or the concatenation over the capability groups the set bits intersect (masks). "
+                   "NOT decided: equality with the Khronos grammar itself (JSON absent; the O4 snapshots frozen from the pinned tree stand in for it).",
     "assumptions": [],
 }
 
